@@ -14,8 +14,14 @@ QUERY = "query Op($v1: X, $v2: X) { f(a: $v1, b: $v2) }"
 DT = datetime.datetime(2020, 1, 2, 3, 4, 5)
 
 
-def gamma(tree, pkg, uploads):
+def gamma(tree, pkg, uploads, memo=None):
+    """memo (a dict): equal "D" sub-trees become ONE Python object (aliasing inside the caller's variables)"""
     tag = tree[0]
+    if memo is not None and tag == "D":
+        key = json.dumps(tree)
+        if key not in memo:
+            memo[key] = {f"k{i}": gamma(k, pkg, uploads, memo) for i, k in enumerate(tree[1:], start=1)}
+        return memo[key]
     if tag == "s":
         return 7
     if tag == "n":
@@ -33,12 +39,45 @@ def gamma(tree, pkg, uploads):
     if tag == "unset":
         return uploads["UNSET"]
     if tag == "L":
-        return [gamma(k, pkg, uploads) for k in tree[1:]]
+        return [gamma(k, pkg, uploads, memo) for k in tree[1:]]
     if tag == "D":
         return {f"k{i}": gamma(k, pkg, uploads) for i, k in enumerate(tree[1:], start=1)}
     if tag == "V":
-        return {f"v{i}": gamma(k, pkg, uploads) for i, k in enumerate(tree[1:], start=1) if k[0] != "absent"}
+        return {f"v{i}": gamma(k, pkg, uploads, memo) for i, k in enumerate(tree[1:], start=1) if k[0] != "absent"}
     raise ValueError(tag)
+
+
+def alpha_py(val, pkg, uploads, top=False):
+    """the CALLER's Python object (after the call) -> abstract tree; the inverse of gamma"""
+    if val is None:
+        return ["n"]
+    if val is uploads["UNSET"]:
+        return ["unset"]
+    for u in ("u1", "u2"):
+        if val is uploads[u]:
+            return [u]
+    if isinstance(val, pkg.Color):
+        return ["e"]
+    if val == DT:
+        return ["d"]
+    if isinstance(val, pkg.InM):
+        return ["m"] if (val.k_1, val.k_2) == (7, 7) else ["?m"]
+    if isinstance(val, pkg.InU):
+        return ["mu"] if (val.k_1 is uploads["u1"] and val.k_2 == 7) else ["?mu"]
+    if isinstance(val, bool):
+        return ["?bool"]
+    if val == 7:
+        return ["s"]
+    if isinstance(val, list):
+        return ["L"] + [alpha_py(x, pkg, uploads) for x in val]
+    if isinstance(val, dict):
+        if top:
+            return ["V"] + [alpha_py(val[k], pkg, uploads) if k in val else ["absent"] for k in ("v1", "v2")]
+        keys = sorted(val)
+        if keys != [f"k{i}" for i in range(1, len(keys) + 1)]:
+            return ["?keys:" + ",".join(keys)]
+        return ["D"] + [alpha_py(val[k], pkg, uploads) for k in keys]
+    return ["?" + repr(val)[:30]]
 
 
 def alpha(val, top=False):
@@ -157,7 +196,7 @@ def main():
     client = pkg.Client(url="http://x/graphql", http_client=hc, **ckw)
     for case in P["cases"]:
         ups = mk_uploads(pkg, bm)
-        variables = gamma(case["tree"], pkg, ups)
+        variables = gamma(case["tree"], pkg, ups, {} if case.get("alias") else None)
         del captured[:]
         kw = {}
         if case.get("timeout"):
@@ -172,6 +211,7 @@ def main():
             rec["status"] = r.status_code
         except Exception as ex:  # noqa
             rec["error"] = f"{type(ex).__name__}: {ex}"[:300]
+        rec["cvars"] = alpha_py(variables, pkg, ups, top=True)
         out_single.append(rec)
     # ---- histories with caller-owned shared objects and interleaved calls
     out_hist = []
@@ -183,6 +223,9 @@ def main():
         events = []
         lock = threading.Lock()
         ups = mk_uploads(pkg, bm)   # the same Upload objects may be shared by the calls of one history
+        var_objs = {}
+        for c, call in enumerate(calls, start=1):
+            var_objs[c] = var_objs[1] if call.get("reuse") else gamma(call["tree"], pkg, ups)
 
         def mark(ev):
             with lock:
@@ -212,11 +255,11 @@ def main():
 
                     async def one2(c=c, call=call):
                         kw = headers_for(call["hdr"], shared)
-                        variables = gamma(call["tree"], pkg, ups)
+                        variables = var_objs[c]
                         for _ in range(rnd.randint(0, 2)):
                             await asyncio.sleep(0)
                         r = await nonlocal_cl.execute(query=QUERY, operation_name="Op", variables=variables, **kw)
-                        mark({"e": "ret", "c": c, "got": r.json()["data"]["f"]})
+                        mark({"e": "ret", "c": c, "got": r.json()["data"]["f"], "cvars": alpha_py(variables, pkg, ups, top=True)})
                     if hcase["mode"] == "concurrent":
                         tasks.append(one2())
                     else:
@@ -247,11 +290,11 @@ def main():
             def srun(c, call, barrier):
                 try:
                     kw = headers_for(call["hdr"], shared)
-                    variables = gamma(call["tree"], pkg, ups)
+                    variables = var_objs[c]
                     if barrier:
                         barrier.wait(timeout=10)
                     r = cl.execute(query=QUERY, operation_name="Op", variables=variables, **kw)
-                    mark({"e": "ret", "c": c, "got": r.json()["data"]["f"]})
+                    mark({"e": "ret", "c": c, "got": r.json()["data"]["f"], "cvars": alpha_py(variables, pkg, ups, top=True)})
                 except Exception as ex:  # noqa
                     mark({"e": "crash", "c": c, "error": f"{type(ex).__name__}: {ex}"[:300]})
             if hcase["mode"] == "concurrent":
